@@ -637,6 +637,16 @@ def gen_init_faces():
     return txt, {"exponent": expo, "edge_sign": sign or "+"}
 
 
+def write_stub(name, recs):
+    """a site of this file was not recognised: replace lean/Mouette/Generated/<name>.lean by a stub naming the broken sites, so that
+    everything bridged to it fails to build against THIS tree (and the build log never talks about an earlier tree)"""
+    bad = [r for r in recs if not r["ok"]]
+    lines = "\n".join(f"  * {r['site']}: {str(r['detail'])[:300]}".replace("-/", "- /").replace("/-", "/ -") for r in bad)
+    body = (f"/- TRANSLATION FAILED for the current source tree; the definitions of this file are deliberately absent.\n{lines}\n-/\n"
+            f"namespace Mouette.Generated.Stub\ndef {name}TranslationFailed : Bool := true\nend Mouette.Generated.Stub\n")
+    T.write_generated(name, body)
+
+
 def run():
     parts, recs = [], []
 
@@ -660,6 +670,8 @@ def run():
                 "open Mouette.FF Mouette.FFS Mouette.Generated\n\n" + "\n".join(parts) + "\nend Mouette.Generated.C18S\n")
         _, sha = T.write_generated("C18Src", body)
         for r in recs: r["detail"] = f"{r['detail']} [file sha {sha}]"
+    if not all(r["ok"] for r in recs):
+        write_stub("C18Src", recs)          # never leave the file of an earlier tree on disk
     return recs
 
 
@@ -795,3 +807,223 @@ def gen_flag_faces():
 
 
 EXTRA_SITES = [("faces2d.flag_singularities (imperative: both loops)", gen_flag_faces)]
+
+# ----------------------------------------------------------------------------------------------------------------
+# vertex2d.py: _initialize_variables (whole body)
+# ----------------------------------------------------------------------------------------------------------------
+def _expo(n):
+    return "order" if U(n) in ("self.order", "order") else natlit(n)
+
+
+def _vinit_loop(loop, guarded_expected):
+    """one `for e in self.feat.feature_edges:` loop of the vertex-based _initialize_variables -> Lean lines of the fold body"""
+    if not (isinstance(loop, ast.For) and U(loop.iter) == "self.feat.feature_edges" and isinstance(loop.target, ast.Name) and not loop.orelse):
+        raise TranslateError("vertex _initialize_variables: loop is not over self.feat.feature_edges")
+    e = loop.target.id
+    body = strip(loop.body)
+    if not (body and isinstance(body[0], ast.Assign) and isinstance(body[0].targets[0], ast.Tuple) and len(body[0].targets[0].elts) == 2
+            and U(body[0].value) == f"self.mesh.edges[{e}]"):
+        raise TranslateError("vertex _initialize_variables: `A,B = self.mesh.edges[e]` not found")
+    A, B = (U(x) for x in body[0].targets[0].elts)
+    ends = {A: "it.a", B: "it.b"}
+    env = {}          # local -> (lean, kind)
+    lines = [f"let v_{A} := it.a", f"let v_{B} := it.b"]
+    edge_sign = {}
+
+    def val(n):
+        """complex value expressions"""
+        if isinstance(n, ast.Name) and n.id in env and env[n.id][1] == "cpx": return env[n.id][0]
+        if isinstance(n, ast.BinOp) and isinstance(n.op, ast.Pow):
+            b = n.left
+            if isinstance(b, ast.BinOp) and isinstance(b.op, ast.Div) and isinstance(b.left, ast.Name) and U(b.right) == f"abs({b.left.id})" \
+                    and b.left.id in env and env[b.left.id][1] == "cpx":
+                x = env[b.left.id][0]
+                return f"(cpow (cdivR {x} (N.abs {x})) {_expo(n.right)})"
+            if isinstance(b, ast.Call) and U(b.func) == "cmath.rect" and len(b.args) == 2 and U(b.args[0]) in ("1", "1.0", "1.") \
+                    and isinstance(b.args[1], ast.Call) and U(b.args[1].func) == "self.conn.transport" and len(b.args[1].args) == 2 \
+                    and all(U(a) in ends for a in b.args[1].args):
+                p, q = (U(a) for a in b.args[1].args)
+                return f"(cpow (rect v_{p} v_{q}) {_expo(n.right)})"
+        raise TranslateError(f"vertex _initialize_variables: value not recognised: {U(n)[:100]}")
+    for s in body[1:]:
+        if isinstance(s, ast.Assign) and isinstance(s.targets[0], ast.Name) and U(s.value) in (f"self.mesh.vertices[{B}]-self.mesh.vertices[{A}]", f"self.mesh.vertices[{A}]-self.mesh.vertices[{B}]"):
+            edge_sign[s.targets[0].id] = "" if U(s.value).startswith(f"self.mesh.vertices[{B}]") else "cneg "
+            continue
+        if isinstance(s, ast.Assign) and isinstance(s.targets[0], ast.Tuple) and len(s.targets[0].elts) == 2 and isinstance(s.value, ast.Call) \
+                and U(s.value.func) == "self.conn.project" and len(s.value.args) == 2 and U(s.value.args[0]) in edge_sign and U(s.value.args[1]) in ends:
+            x, y = (U(t) for t in s.targets[0].elts)
+            env[x] = ((U(s.value.args[0]), U(s.value.args[1])), "px"); env[y] = ((U(s.value.args[0]), U(s.value.args[1])), "py")
+            continue
+        if isinstance(s, ast.Assign) and isinstance(s.targets[0], ast.Name) and isinstance(s.value, ast.Call) and U(s.value.func) == "complex" and len(s.value.args) == 2:
+            a, b = (U(t) for t in s.value.args)
+            if not (a in env and b in env and env[a][1] == "px" and env[b][1] == "py" and env[a][0] == env[b][0]):
+                raise TranslateError(f"vertex _initialize_variables: complex(..) is not built from one projection: {U(s)}")
+            ed, X = env[a][0]
+            nm = s.targets[0].id
+            lines.append(f"let v_{nm} := {edge_sign[ed]}(proj it.id v_{X})"); env[nm] = (f"v_{nm}", "cpx")
+            continue
+        if isinstance(s, ast.Assign) and isinstance(s.targets[0], ast.Name):
+            nm = s.targets[0].id
+            lines.append(f"let v_{nm} := {val(s.value)}"); env[nm] = (f"v_{nm}", "cpx")
+            continue
+        if isinstance(s, ast.AugAssign) and isinstance(s.op, ast.Add) and isinstance(s.target, ast.Subscript) and U(s.target.value) == "self.var" and U(s.target.slice) in ends:
+            X = U(s.target.slice); w = val(s.value)
+            lines.append(f"let var := var.set v_{X} (cadd (var.getD v_{X} czero) {w})")
+            continue
+        if isinstance(s, ast.If) and not s.orelse and isinstance(s.test, ast.Compare) and len(s.test.ops) == 1 and isinstance(s.test.ops[0], (ast.Lt, ast.LtE)):
+            thr = ratlit(s.test.left)
+            rel = "<" if isinstance(s.test.ops[0], ast.Lt) else "≤"
+            b = strip(s.body)
+            ok = len(b) == 1 and isinstance(b[0], ast.AugAssign) and isinstance(b[0].op, ast.Add) and isinstance(b[0].target, ast.Subscript) \
+                and U(b[0].target.value) == "self.var" and U(b[0].target.slice) in ends
+            if not ok: raise TranslateError(f"vertex _initialize_variables: guarded statement is not `self.var[X] += w`: {U(s)[:100]}")
+            X = U(b[0].target.slice); w = val(b[0].value)
+            c = s.test.comparators[0]
+            if not (isinstance(c, ast.Call) and U(c.func) == "abs" and isinstance(c.args[0], ast.BinOp) and isinstance(c.args[0].op, ast.Add)
+                    and {U(c.args[0].left), U(c.args[0].right)} == {f"self.var[{X}]", U(b[0].value)}):
+                raise TranslateError(f"vertex _initialize_variables: guard is not abs(self.var[X] + w) > THR for the X, w of the guarded statement: {U(s.test)}")
+            lines.append(f"let var := if {thr} {rel} N.abs (cadd (var.getD v_{X} czero) {w}) then var.set v_{X} (cadd (var.getD v_{X} czero) {w}) else var")
+            continue
+        raise TranslateError(f"vertex _initialize_variables: statement not recognised: {U(s)[:100]}")
+    return lines
+
+
+def gen_init_verts():
+    fn = load_fn(VERTS, "_BaseFrameField2DVertices._initialize_variables")
+    body = strip(fn.body)
+    if len(body) != 2 or not isinstance(body[0], ast.If) or not isinstance(body[1], ast.For):
+        raise TranslateError("vertex _initialize_variables: body is not (if/else over the accumulation, normalisation loop)")
+    br, nl = body
+    t = br.test
+    ok = isinstance(t, ast.BoolOp) and isinstance(t.op, ast.And) and len(t.values) == 2 and U(t.values[0]) == "self.smooth_normals"
+    if ok and U(t.values[1]) == "self.order%2!=1": cond = "smoothNormals && (order % 2 != 1)"
+    elif ok and U(t.values[1]) == "self.order%2==0": cond = "smoothNormals && (order % 2 == 0)"
+    else: raise TranslateError(f"vertex _initialize_variables: branch condition not recognised: {U(t)}")
+    th, el = strip(br.body), strip(br.orelse)
+    if len(th) != 1 or len(el) != 1: raise TranslateError("vertex _initialize_variables: each branch must be one loop")
+    l1, l2 = _vinit_loop(th[0], True), _vinit_loop(el[0], False)
+    if not (U(nl.iter) == "self.feat.feature_vertices" and isinstance(nl.target, ast.Name) and not nl.orelse):
+        raise TranslateError("vertex _initialize_variables: last loop is not over self.feat.feature_vertices")
+    A = nl.target.id
+    nb = strip(nl.body)
+    elt = f"self.var[{A}]"
+    ok = len(nb) == 1 and isinstance(nb[0], ast.If) and not nb[0].orelse and isinstance(nb[0].test, ast.Compare) and isinstance(nb[0].test.ops[0], (ast.Lt, ast.LtE)) \
+        and U(nb[0].test.comparators[0]) == f"abs({elt})"
+    gb = strip(nb[0].body) if ok else []
+    ok = ok and len(gb) == 1 and isinstance(gb[0], ast.AugAssign) and isinstance(gb[0].op, ast.Div) and U(gb[0].target) == elt and U(gb[0].value) == f"abs({elt})"
+    if not ok: raise TranslateError("vertex _initialize_variables: normalisation loop is not `if abs(var[A]) > T: var[A] /= abs(var[A])`")
+    thr = ratlit(nb[0].test.left); rel = "<" if isinstance(nb[0].test.ops[0], ast.Lt) else "≤"
+    ind = "          "
+    txt = (f"/-- `_BaseFrameField2DVertices._initialize_variables` ({VERTS}), whole body. `proj e X` = `complex(*conn.project(vertices[B]-vertices[A], X))`\n"
+           f"for feature edge `e = (A,B)`, `rect P Q` = `cmath.rect(1, conn.transport(P,Q))` -/\n"
+           f"def initVariablesVerts (N : Num) (order : Nat) (smoothNormals : Bool) (proj : Nat → Nat → Cpx) (rect : Nat → Nat → Cpx)\n"
+           f"    (featEdges : List VFeatEdge) (featV : List Nat) (var : Vec) : Vec :=\n"
+           f"  let var := if {cond} then\n"
+           f"      (featEdges.foldl (fun var it =>\n" + "\n".join(ind + l for l in l1) + f"\n{ind}var) var)\n"
+           f"    else\n"
+           f"      (featEdges.foldl (fun var it =>\n" + "\n".join(ind + l for l in l2) + f"\n{ind}var) var)\n"
+           f"  let var := featV.foldl (fun var v_{A} =>\n"
+           f"      if {thr} {rel} N.abs (var.getD v_{A} czero) then var.set v_{A} (cdivR (var.getD v_{A} czero) (N.abs (var.getD v_{A} czero))) else var) var\n"
+           f"  var\n")
+    return txt, {"cond": cond, "guarded_steps": len(l1), "plain_steps": len(l2), "feature_threshold": thr}
+
+
+EXTRA_SITES.append(("vertex2d._initialize_variables (imperative: whole body)", gen_init_verts))
+
+# ----------------------------------------------------------------------------------------------------------------
+# vertex2d.py: flag_singularities (whole body)
+# ----------------------------------------------------------------------------------------------------------------
+def gen_flag_verts():
+    from . import c18vtranslate as TRV
+    m = TRV.site_vertex_flag()       # shapes of aA/aB, uB, the comprehension, argmin, the three stores, half-edge list, curvature, selection
+    fn = load_fn(VERTS, "_BaseFrameField2DVertices.flag_singularities")
+    body = strip(fn.body)
+    if len(body) != 8:
+        raise TranslateError(f"vertex flag_singularities: expected 8 top-level statements, found {len(body)}")
+    if U(body[0]) != "self._check_init()": raise TranslateError("vertex flag_singularities does not start with self._check_init()")
+    pre = {U(x.targets[0]): x for x in body[1:4] if isinstance(x, ast.Assign)}
+    if set(pre) != {"curvature", "ZERO_THRESHOLD", "edge_rot"}:
+        raise TranslateError(f"vertex flag_singularities: statements 2-4 are not curvature / ZERO_THRESHOLD / edge_rot: {sorted(pre)}")
+    if U(pre["curvature"].value) != "attributes.parallel_transport_curvature(self.mesh,self.conn,persistent=False)":
+        raise TranslateError(f"curvature is not parallel_transport_curvature(self.mesh, self.conn, persistent=False): {U(pre['curvature'].value)}")
+    if U(pre["edge_rot"].value) not in ("dict()", "{}"): raise TranslateError("edge_rot is not an empty dict")
+    thr = ratlit(pre["ZERO_THRESHOLD"].value)
+    ru1, eloop, ru2, floop = body[4:]
+    c1 = _reuse(ru1, "edge_rot_attr", "self.mesh.edges")
+    c2 = _reuse(ru2, "singuls", "self.mesh.faces")
+    if not (isinstance(eloop, ast.For) and U(eloop.iter) == "enumerate(self.mesh.edges)" and isinstance(eloop.target, ast.Tuple)
+            and len(eloop.target.elts) == 2 and isinstance(eloop.target.elts[1], ast.Tuple) and len(eloop.target.elts[1].elts) == 2):
+        raise TranslateError("vertex flag_singularities: edge loop is not `for ie,(A,B) in enumerate(self.mesh.edges)`")
+    ie = U(eloop.target.elts[0]); A, B = (U(x) for x in eloop.target.elts[1].elts)
+    if (A, B) != ("A", "B"): raise TranslateError("vertex flag_singularities: the edge loop does not name the ends A, B")
+    eb = strip(eloop.body)
+    kinds = [U(x.targets[0]) if isinstance(x, ast.Assign) else type(x).__name__ for x in eb]
+    head, stores = kinds[:6], kinds[6:]
+    if head[:3] != ["(fA,fB)", "(aA,aB)", "uB"] or sorted(head[3:5]) != ["abs_angles", "angles"] or head[5] != "i_angle" \
+            or sorted(stores) != sorted(["edge_rot[A,B]", "edge_rot[B,A]", f"edge_rot_attr[{ie}]"]):
+        raise TranslateError(f"vertex flag_singularities: statements of the edge loop are {kinds}")
+    fv = U(eb[0].value)
+    if fv == "(self.var[A],self.var[B])": fA, fB = "v_A", "v_B"
+    elif fv == "(self.var[B],self.var[A])": fA, fB = "v_B", "v_A"
+    else: raise TranslateError(f"fA,fB is not self.var[A], self.var[B]: {fv}")
+    aa = [x for x in eb if isinstance(x, ast.Assign) and U(x.targets[0]) == "abs_angles"][0]
+    an = [x for x in eb if isinstance(x, ast.Assign) and U(x.targets[0]) == "angles"][0]
+    lc = an.value
+    want_abs = f"[abs({U(lc.elt)})for{U(lc.generators[0].target)}in{U(lc.generators[0].iter)}]"
+    if U(aa.value) not in (want_abs, "[abs(_a)for_ainangles]"):
+        raise TranslateError(f"abs_angles is not the list of absolute values of `angles`: {U(aa.value)[:120]}")
+    args = f"(C18V.rootPhase (P.theta {fB}) P.order 0) v_aB (C18V.rootPhase (P.theta {fA}) P.order k) v_aA"
+    sg = lambda x: "v_r" if x == 1 else "-(v_r)"
+    store_lines = []
+    for k in stores:
+        if k == "edge_rot[A,B]": store_lines.append(f"let v_edge_rot := dset v_edge_rot v_A v_B ({sg(m['sAB'])})")
+        elif k == "edge_rot[B,A]": store_lines.append(f"let v_edge_rot := dset v_edge_rot v_B v_A ({sg(m['sBA'])})")
+        else: store_lines.append(f"let v_edge_rot_attr := v_edge_rot_attr ++ [(it.1, {sg(m['sAttr'])})]")
+    # face loop
+    if not (isinstance(floop, ast.For) and U(floop.iter) == "enumerate(self.mesh.faces)" and isinstance(floop.target, ast.Tuple)
+            and isinstance(floop.target.elts[1], ast.Tuple) and len(floop.target.elts[1].elts) == 3):
+        raise TranslateError("vertex flag_singularities: face loop is not `for id_face,(A,B,C) in enumerate(self.mesh.faces)`")
+    idf = U(floop.target.elts[0]); tn = [U(x) for x in floop.target.elts[1].elts]
+    fb = strip(floop.body)
+    fk = [type(x).__name__ for x in fb]
+    if fk != ["Assign", "For", "AugAssign", "If"]:
+        raise TranslateError(f"vertex flag_singularities: statements of the face loop are {fk}, expected start / half-edge loop / curvature / selection")
+    if U(fb[2].value) != f"curvature[{idf}]": raise TranslateError("the curvature term is not curvature[id_face]")
+    pairs = ", ".join(f"(v_{tn[i]}, v_{tn[j]})" for i, j in m["pairs"])
+    b = lambda x: "true" if x else "false"
+    txt = (f"/-- `_BaseFrameField2DVertices.flag_singularities` ({VERTS}), first half: the dict `edge_rot` (keys = directed vertex pairs) and the\n"
+           f"`angles` edge attribute (re-used and cleared, or created); per edge `(ie, A, B)` of `enumerate(mesh.edges)` the matched rotation is\n"
+           f"stored at `(A,B)`, `(B,A)` and in the attribute with the signs the source states. Angles in turns -/\n"
+           f"def flagEdgeRotVerts (P : FlagVertsIn) (old : Option FFH.Attr) : Dict × FFH.Attr :=\n"
+           f"  let v_edge_rot : Dict := fun _ _ => 0\n"
+           f"  let v_edge_rot_attr := FFH.flagInto {b(c1)} old []\n"
+           f"  P.edges.foldl (fun st it =>\n"
+           f"      let v_edge_rot := st.1\n"
+           f"      let v_edge_rot_attr := st.2\n"
+           f"      let v_A := it.2.1\n"
+           f"      let v_B := it.2.2\n"
+           f"      let v_aA := P.tr v_A v_B\n"
+           f"      let v_aB := P.tr v_B v_A\n"
+           f"      let v_r := argminAbs ((List.range P.order).map (fun k => C18V.angleDiff (C18V.matchFst {args}) (C18V.matchSnd {args})))\n"
+           + "".join(f"      {l}\n" for l in store_lines) +
+           f"      (v_edge_rot, v_edge_rot_attr)) (v_edge_rot, v_edge_rot_attr)\n"
+           f"/-- second half: the `singuls` face attribute (re-used and cleared, or created); per face `(id, A, B, C)` the sum starts from 0, adds\n"
+           f"`edge_rot[(u,v)]` over the half-edges the source lists, then the curvature of the face; `+1` above the threshold, `-1` below its negative -/\n"
+           f"def flagSingulsVerts (P : FlagVertsIn) (v_edge_rot : Dict) (old : Option FFH.Attr) : FFH.Attr :=\n"
+           f"  let v_singuls := FFH.flagInto {b(c2)} old []\n"
+           f"  P.faces.foldl (fun v_singuls it =>\n"
+           f"      let v_{tn[0]} := it.2.1\n"
+           f"      let v_{tn[1]} := it.2.2.1\n"
+           f"      let v_{tn[2]} := it.2.2.2\n"
+           f"      let v_angle : Rat := 0\n"
+           f"      let v_angle := [{pairs}].foldl (fun v_angle uv => v_angle + v_edge_rot uv.1 uv.2) v_angle\n"
+           f"      let v_angle := v_angle {'+' if m['csign'] == 1 else '-'} P.curv it.1\n"
+           f"      if P.thrTurns < v_angle then v_singuls ++ [(it.1, 1)]\n"
+           f"      else if v_angle < -P.thrTurns then v_singuls ++ [(it.1, -1)]\n"
+           f"      else v_singuls) v_singuls\n"
+           f"/-- `ZERO_THRESHOLD` (radians) of the vertex-based field -/\n"
+           f"def zeroThresholdVerts : Rat := {thr}\n")
+    return txt, {"cleared": (c1, c2), "fA": fA, "fB": fB, "stores": stores, "pairs": m["pairs"], "csign": m["csign"]}
+
+
+EXTRA_SITES.append(("vertex2d.flag_singularities (imperative: whole body)", gen_flag_verts))
